@@ -213,7 +213,7 @@ func (w *c13World) startDrain(s int) {
 					msg := string(pending[:i])
 					pending = pending[i+1:]
 					if strings.HasPrefix(msg, ".syn close connection") {
-						h.Write([]byte("protocol 4.1 base64 " + base64.StdEncoding.EncodeToString([]byte(".ack close connection")) + ";"))
+						go h.Write([]byte("protocol 4.1 base64 " + base64.StdEncoding.EncodeToString([]byte(".ack close connection")) + ";"))
 						continue
 					}
 					f := strings.SplitN(msg, "|", 6)
